@@ -129,6 +129,7 @@ def _strategy():
             # declarations tied by weak dependencies: the printed SDL has to be orderable again
             G.add_weak_family(s, draw)
         fam_edit = None
+        fam_name = None
         if draw(st.integers(0, 2)) == 0:
             # a structural family (gen/families.py); sometimes reached through one of its edits
             from vp_harness.gen import families as F
@@ -141,6 +142,7 @@ def _strategy():
                             session=draw(st.sampled_from(SESSION_MODULES)), family='family:' + fam['name'])
                 return case
             s = F.add(s, fam['A'], draw)
+            fam_name = fam['name']
             if fam['B'] and draw(st.booleans()):
                 fam_edit = (fam, draw(st.sampled_from(sorted(fam['B']))))
         texts = [G.render(s)]
@@ -159,6 +161,8 @@ def _strategy():
                     session=draw(st.sampled_from(SESSION_MODULES)))
         if fam_edit is not None:
             case['family'] = f'family:{fam_edit[0]["name"]}:{fam_edit[1]}'
+        elif fam_name is not None:
+            case['family'] = f'family:{fam_name}'
         # cross-module DDL with short names
         mods = s['modules']
         if len(mods) > 1 and draw(st.booleans()):
